@@ -115,6 +115,7 @@ func (c *Ctx) c06Overlap() {
 		// the path comparison whose operands are the source and the worker's own destination value
 		var test *ssa.If
 		trueSucc := 0
+		rawOperand := false
 		for _, b := range f.Blocks {
 			ifi, ok := b.Instrs[len(b.Instrs)-1].(*ssa.If)
 			if !ok {
@@ -133,7 +134,17 @@ func (c *Ctx) c06Overlap() {
 				if cmp.Op == token.NEQ {
 					trueSucc = 1 - ts
 				}
+				// both operands must be in canonical form: the caller's strings may spell one object in several ways
+				for _, o := range []ssa.Value{cmp.X, cmp.Y} {
+					if !canonicalPath(o, 4) {
+						rawOperand = true
+					}
+				}
 			}
+		}
+		if test != nil && rawOperand {
+			c.violate("Z5", key, c.ipos(test), "the source is compared with the resolved destination as spelt by the caller, not in cleaned form: the same object named \"d/./f\", \"d//f\" or with a trailing separator is not recognised, the worker re-creates it and truncates the source before reading it")
+			continue
 		}
 		if test == nil {
 			c.violate("Z5", key, c.ipos(w), "the destination handed to "+g.Name()+" is never compared with the source: when the resolved destination is the source itself (Copy(\"d/f\", \"d\"), Copy(\"d\", parent of d)) the worker creates the destination anew and truncates the source before reading it")
@@ -674,6 +685,32 @@ func operandReaches(v, target ssa.Value, depth int) bool {
 				return true
 			}
 		}
+	}
+	return false
+}
+
+// canonicalPath: v is the result of filepath.Clean / Join / Abs (which clean), or a merge of such values only.
+func canonicalPath(v ssa.Value, depth int) bool {
+	if depth == 0 {
+		return false
+	}
+	switch x := v.(type) {
+	case *ssa.Call:
+		switch calleeFull(&x.Call) {
+		case "path/filepath.Clean", "path/filepath.Join", "path/filepath.Abs":
+			return true
+		}
+	case *ssa.Extract:
+		if cl, ok := x.Tuple.(*ssa.Call); ok && calleeFull(&cl.Call) == "path/filepath.Abs" && x.Index == 0 {
+			return true
+		}
+	case *ssa.Phi:
+		for _, e := range x.Edges {
+			if !canonicalPath(e, depth-1) {
+				return false
+			}
+		}
+		return len(x.Edges) > 0
 	}
 	return false
 }
